@@ -321,6 +321,98 @@ fn gen_long15(rng: &mut Rng) -> (Prog, Vec<String>) {
 }
 
 // ------------------------------------------------------------------------------------------
+// big choices: far more attempts at one position than any capacity / threshold constant of the bookkeeping
+// (lists sized for 20 call stacks and 30 tokens, 4 children collapse into the parent): 15-70 alternatives, each a bare
+// token, a rule around a token / a sequence of tokens, or a rule around a nested choice (2-6, sometimes 15-30, of the
+// same kinds of alternatives, two levels deep). One tree gives a closure tree and a grammar.
+// ------------------------------------------------------------------------------------------
+#[derive(Clone)]
+enum BTok { Lit(String), Ins(String), Range(char, char), Upper }
+#[derive(Clone)]
+enum Big { Tok(BTok), Rule(u32, Box<Big>), Choice(Vec<Big>), Cat(Vec<Big>) }
+
+fn big_tok(rng: &mut Rng) -> Big {
+    const LITS: [&str; 10] = ["a", "b", "ab", "ba", "bb", "aa", "bab", "é", "aé", "abb"];
+    Big::Tok(match rng.weighted(&[12, 2, 1, 1]) {
+        0 => BTok::Lit(LITS[rng.weighted(&[2, 6, 2, 3, 3, 1, 2, 1, 1, 1])].to_string()),
+        1 => BTok::Ins(["a", "b", "ab", "é"][rng.below(4) as usize].to_string()),
+        2 => if rng.chance(1, 2) { BTok::Range('b', 'b') } else { BTok::Range('a', 'b') },
+        _ => BTok::Upper,
+    })
+}
+fn big_choice(rng: &mut Rng, n: usize, depth: u32, next: &mut u32) -> Big {
+    fn fresh(next: &mut u32) -> u32 { *next += 1; *next }
+    // the mixture of alternative kinds differs from tree to tree (some are all rules, some mostly bare tokens)
+    let w_bare = [0u64, 1, 3, 8][rng.below(4) as usize];
+    let w_nest = if depth == 0 { 0 } else { [1u64, 3, 6][rng.below(3) as usize] };
+    let items = (0..n).map(|_| match rng.weighted(&[w_bare, 8, 1, w_nest, 1]) {
+        0 => big_tok(rng),
+        1 => Big::Rule(fresh(next), Box::new(big_tok(rng))),
+        2 => Big::Rule(fresh(next), Box::new(Big::Cat(vec![big_tok(rng), big_tok(rng)]))),
+        3 => {
+            let k = if rng.chance(1, 8) { rng.range(15, 30) } else { rng.range(2, 6) } as usize;
+            let r = fresh(next);
+            Big::Rule(r, Box::new(big_choice(rng, k, depth - 1, next)))
+        }
+        _ => Big::Cat(vec![big_tok(rng), Big::Rule(fresh(next), Box::new(big_tok(rng)))]),
+    }).collect();
+    Big::Choice(items)
+}
+/// (tree, length of the literal prefix "a"*)
+fn gen_big(rng: &mut Rng) -> (Big, usize) {
+    let mut next = 0u32;
+    let n = if rng.chance(1, 3) { rng.range(15, 30) } else { rng.range(25, 70) } as usize;
+    let mut t = big_choice(rng, n, 2, &mut next);
+    if rng.chance(1, 2) { next += 1; t = Big::Rule(next, Box::new(t)); }
+    let prefix = rng.below(3) as usize;
+    if prefix > 0 {
+        let mut v: Vec<Big> = (0..prefix).map(|_| Big::Tok(BTok::Lit("a".into()))).collect();
+        v.push(t);
+        t = Big::Cat(v);
+        if rng.chance(1, 2) { next += 1; t = Big::Rule(next, Box::new(t)); }
+    }
+    (t, prefix)
+}
+/// inputs for a big tree: after the prefix mostly something no (or nearly no) token matches, so that the alternatives all
+/// fail at one position, and ordinary short texts
+fn big_input(rng: &mut Rng, prefix: usize) -> String {
+    let tail = match rng.below(6) {
+        0 => String::new(), 1 => "\n".to_string(), 2 => format!("z{}", gen_input15(rng, 2)), 3 => format!("é{}", gen_input15(rng, 2)),
+        _ => gen_input15(rng, 4),
+    };
+    format!("{}{}", "a".repeat(if rng.chance(5, 6) { prefix } else { rng.below(3) as usize }), tail)
+}
+fn chain(mut v: Vec<Prog>, f: fn(Box<Prog>, Box<Prog>) -> Prog) -> Prog {
+    let mut p = v.pop().unwrap_or(Prog::Err);
+    while let Some(a) = v.pop() { p = f(Box::new(a), Box::new(p)); }
+    p
+}
+/// rule numbers: `modr` = 0 keeps them distinct, otherwise they are folded (the same rule met on several paths)
+fn big_prog(t: &Big, modr: u32) -> Prog {
+    match t {
+        Big::Tok(BTok::Lit(s)) => Prog::Str(s.clone()), Big::Tok(BTok::Ins(s)) => Prog::Ins(s.clone()),
+        Big::Tok(BTok::Range(a, b)) => Prog::Range(*a, *b), Big::Tok(BTok::Upper) => Prog::Cls(vec![('A', 'Z')]),
+        Big::Rule(r, b) => Prog::Rule(if modr == 0 { *r } else { *r % modr } as R, Box::new(big_prog(b, modr))),
+        Big::Choice(v) => chain(v.iter().map(|x| big_prog(x, modr)).collect(), Prog::Else),
+        Big::Cat(v) => chain(v.iter().map(|x| big_prog(x, modr)).collect(), Prog::Then),
+    }
+}
+fn big_gexpr(t: &Big, rules: &mut Vec<String>) -> String {
+    match t {
+        Big::Tok(BTok::Lit(s)) => format!("\"{}\"", s), Big::Tok(BTok::Ins(s)) => format!("^\"{}\"", s),
+        Big::Tok(BTok::Range(a, b)) => format!("'{}'..'{}'", a, b), Big::Tok(BTok::Upper) => "ASCII_ALPHA_UPPER".into(),
+        Big::Rule(r, b) => { let e = big_gexpr(b, rules); rules.push(format!("x{} = {{ {} }}", r, e)); format!("x{}", r) }
+        Big::Choice(v) => format!("({})", v.iter().map(|x| big_gexpr(x, rules)).collect::<Vec<_>>().join(" | ")),
+        Big::Cat(v) => format!("({})", v.iter().map(|x| big_gexpr(x, rules)).collect::<Vec<_>>().join(" ~ ")),
+    }
+}
+fn big_grammar(t: &Big) -> String {
+    let mut rules = vec![];
+    let e = big_gexpr(t, &mut rules);
+    format!("r0 = {{ {} }}\n{}\n", e, rules.join("\n"))
+}
+
+// ------------------------------------------------------------------------------------------
 // generated grammars through pest_meta + pest_vm
 // ------------------------------------------------------------------------------------------
 fn gexpr(rng: &mut Rng, depth: u32, cur: usize, nrules: usize) -> String {
@@ -551,6 +643,25 @@ fn main() {
                 for input in &inputs { emit_pair(&Case { lim: None, det: true, input: input.clone(), env: vec![], prog: p.clone() }, &mut w, &mut st); }
             }
         }
+        // big choices (see gen_big): every tree as a closure tree (rule numbers distinct or folded) and as a grammar
+        "big" => {
+            let count = arg_u64(2, 200); let mut rng = Rng::new(arg_u64(3, 0));
+            let mut i = 0;
+            while i < count {
+                let (t, prefix) = gen_big(&mut rng);
+                let prog = big_prog(&t, [0u32, 0, 5, 3][rng.below(4) as usize]);
+                let inputs: Vec<String> = (0..3).map(|_| big_input(&mut rng, prefix)).collect();
+                for input in &inputs {
+                    emit_pair(&Case { lim: None, det: true, input: input.clone(), env: vec![], prog: prog.clone() }, &mut w, &mut st);
+                    i += 1;
+                }
+                let g = big_grammar(&t);
+                match compile(&g) {
+                    Some(vm) => for input in &inputs { emit_vm(&vm, &g, "r0", input, &mut w, &mut st); i += 1; },
+                    None => { rejected += 1; }
+                }
+            }
+        }
         // generated grammars through the VM
         "vm" => {
             let count = arg_u64(2, 200); let mut rng = Rng::new(arg_u64(3, 0));
@@ -576,7 +687,7 @@ fn main() {
                 }
             }
         }
-        _ => { eprintln!("usage: c15 one CASE | vmone CASE | around CASE | random COUNT SEED [DEPTH] | targeted [SHARD SHARDS] | small MAXLEN [SHARD SHARDS] | vm COUNT SEED"); std::process::exit(2); }
+        _ => { eprintln!("usage: c15 one CASE | vmone CASE | around CASE | random COUNT SEED [DEPTH] | big COUNT SEED | targeted [SHARD SHARDS] | small MAXLEN [SHARD SHARDS] | vm COUNT SEED"); std::process::exit(2); }
     }
     writeln!(w, "#SUMMARY\tevaluations={}\tdistinct_nontrivial={}\tok={}\terr={}\tpanics={}\tdiverged={}\toracle_violations={}\thelp_rendered={}\tgrammars_rejected={}",
         st.n, st.nontriv, st.oks, st.errs, st.panics, st.diverged, st.violations, st.help_rendered, rejected).unwrap();
